@@ -1,8 +1,10 @@
 (* C12/MoreNick.v — `more <nick>` by another user never costs the owner (or the
-   other user) a chunk: since Misc.more copies the messages it takes over, no
-   IrcMsg object is handed to takeMsg twice, so nothing trips the emulatedEcho
-   assertion, and the owner's successive `more` outputs are her pending chunks
-   in order whatever the other user does in between. *)
+   other user) a chunk: Misc.more gives the caller copies of the messages, and
+   (since the repair of C19.F47) takeMsg delivers an object even if it was sent
+   before; the owner's successive `more` outputs are her pending chunks in order
+   whatever the other user does in between.  The well-formedness invariant (no
+   object queued twice, none already sent) is kept: it is what Misc.more's
+   copying maintains, although delivery no longer depends on it. *)
 From Coq Require Import List NArith ZArith Bool Lia ZifyBool Arith.
 Import ListNotations.
 Require Import Base.Wire Base.PyStr C12.Model.
@@ -25,19 +27,18 @@ Proof.
       * intros y Hy. apply Hd. right. exact Hy.
 Qed.
 
-(* ---------- takeMsg on objects that were never sent ---------- *)
+(* ---------- takeMsg: everything queued is delivered (since the repair of C19.F47 even an object
+   that was sent before) ---------- *)
+Lemma take_all_all : forall msgs sent, take_all sent msgs = (lines msgs, rev (ids msgs) ++ sent).
+Proof.
+  induction msgs as [|m r IH]; intro sent; [reflexivity|].
+  cbn [take_all]. rewrite IH. cbn [lines ids map rev]. rewrite <- app_assoc. reflexivity.
+Qed.
+
 Lemma take_all_ok : forall msgs sent,
   NoDup (ids msgs) -> (forall i, In i (ids msgs) -> ~ In i sent) ->
   take_all sent msgs = (lines msgs, rev (ids msgs) ++ sent).
-Proof.
-  induction msgs as [|m r IH]; intros sent Hnd Hfresh; [reflexivity|].
-  cbn [ids map] in Hnd. apply NoDup_cons_iff in Hnd as [Hm Hr].
-  cbn [take_all]. assert (E : mem (pm_id m) sent = false).
-  { apply mem_false. apply Hfresh. left. reflexivity. }
-  rewrite E. rewrite (IH (pm_id m :: sent) Hr).
-  - cbn [lines ids map rev]. rewrite <- app_assoc. reflexivity.
-  - intros i Hi [<-|Hs]; [exact (Hm Hi)|]. exact (Hfresh i (or_intror Hi) Hs).
-Qed.
+Proof. intros msgs sent _ _. apply take_all_all. Qed.
 
 (* ---------- the invariant ---------- *)
 Definition wf (st : mstate) : Prop :=
